@@ -355,20 +355,21 @@ def shapes():
     """name -> constructor of a fresh TypeSpec (fresh because attrs get mutated)"""
     F = Field
     d = {
-        "s_named3": lambda: S("named", [F("a", "u8"), F("b", "i8"), F("c", "u8")], "s_named3"),
+        # field and variant names are deliberately not in alphabetical order where several exist: declaration order is what the documentation orders by
+        "s_named3": lambda: S("named", [F("z", "u8"), F("a", "i8"), F("m", "u8")], "s_named3"),
         "s_named1": lambda: S("named", [F("a", "u8")], "s_named1"),
         "s_named4": lambda: S("named", [F("a", "bool"), F("b", "u8"), F("c", "i8"), F("d", "u8")], "s_named4"),
         "s_tuple2": lambda: S("tuple", [F(None, "u8"), F(None, "u16")], "s_tuple2"),
         "s_unit": lambda: S("unit", [], "s_unit"),
         "s_gen": lambda: S("named", [F("a", "A"), F("b", "u8"), F("p", "core::marker::PhantomData<A>")], "s_gen", [("A: P", "u8")]),
         "e_mixed": lambda: TypeSpec("enum", [Variant("A", "unit", []), Variant("B", "tuple", [F(None, "u8"), F(None, "i8")]),
-                                             Variant("C", "named", [F("a", "u8"), F("b", "u8")])], shape="e_mixed"),
-        "e_data_unit": lambda: TypeSpec("enum", [Variant("A", "tuple", [F(None, "u8")]), Variant("B", "unit", []), Variant("C", "named", [F("a", "u8")]), Variant("D", "unit", [])],
+                                             Variant("C", "named", [F("y", "u8"), F("x", "u8")])], shape="e_mixed"),
+        "e_data_unit": lambda: TypeSpec("enum", [Variant("Q", "tuple", [F(None, "u8")]), Variant("D", "unit", []), Variant("Z", "named", [F("a", "u8")]), Variant("A", "unit", [])],
                                          shape="e_data_unit"),
         "e_units3": lambda: TypeSpec("enum", [Variant("A", "unit", []), Variant("B", "unit", []), Variant("C", "unit", [])], shape="e_units3"),
         "e_two": lambda: TypeSpec("enum", [Variant("A", "tuple", [F(None, "u8"), F(None, "u8")]),
                                            Variant("B", "tuple", [F(None, "u8"), F(None, "u8")])], shape="e_two"),
-        "e_single": lambda: TypeSpec("enum", [Variant("Only", "named", [F("a", "u8"), F("b", "i8")])], shape="e_single"),
+        "e_single": lambda: TypeSpec("enum", [Variant("Only", "named", [F("b", "u8"), F("a", "i8")])], shape="e_single"),
         "e_gen": lambda: TypeSpec("enum", [Variant("A", "tuple", [F(None, "A")]), Variant("B", "named", [F("a", "A"), F("b", "u8")])],
                                   [("A: P", "u8")], shape="e_gen"),
         "s_po": lambda: S("named", [F("a", "Po"), F("b", "u8")], "s_po"),
